@@ -45,7 +45,8 @@ inductive Chk where
                              --   `type_info` uses                                  (D_ctor_poststate)
   | kindUnion                -- `Kind::union` outside the C19 theorem (unsorted / non-`any` Infinite)
   | kindAt                   -- `Kind::at_path` outside the C19 theorem           (C19 atClass)
-  | kindInsert               -- `Kind::insert` outside the C19 theorem (negative index, C19 insertClass)
+  | negIndex                 -- `Kind::insert` at a negative index (no C19 theorem; D_neg_insert_exact_noshift …)
+  | kindInsert               -- `Kind::insert` outside the C19 theorem (C19 insertClass)
   | kindMerge                -- `Kind::merge` outside the C19 theorem             (C19 mergeClass)
   | kindRemove               -- `Kind::remove` at a non-root path (no C19 theorem)
   | delTyping                -- `del` on a variable: the type state is not updated   (D_del_typing)
@@ -67,6 +68,7 @@ def Chk.name : Chk → String
   | .ctorPoststate => "D_ctor_poststate"
   | .kindUnion => "D_kind_union"
   | .kindAt => "D_kind_at_path"
+  | .negIndex => "D_negative_index_kind"
   | .kindInsert => "D_kind_insert"
   | .kindMerge => "D_merge_kind"
   | .kindRemove => "D_del_typing"
@@ -80,6 +82,35 @@ def Chk.name : Chk → String
   | .returnDropsReturns => "D_return_drops_returns"
   | .constSignedZero => "D_const_signed_zero"
 
+/-- naming priority of a failed check (driver): the most specific typing quirk first, the generic
+    `Kind`-operation conditions last -/
+def Chk.priority : Chk → Nat
+  | .delTyping | .kindRemove => 0
+  | .negIndex => 1
+  | .errPartialEffects => 2
+  | .shortCircuitVar => 3
+  | .divRhsEffects | .divDropsTypeDef => 4
+  | .andDropsTypeDef => 5
+  | .returnDropsReturns => 6
+  | .scopeLeak => 7
+  | .constSignedZero => 8
+  | .ctorPoststate => 9
+  | .kindMerge => 10
+  | .kindInsert => 11
+  | .kindAt => 12
+  | .kindUnion => 13
+  | .structural => 14
+  | .outOfModel => 15
+  | .nan => 16
+
+/-- the failed check with the highest naming priority -/
+def pickClass (l : List Chk) : Option Chk :=
+  l.foldl (fun best c =>
+    if c == .nan then best
+    else match best with
+      | none => some c
+      | some b => if c.priority < b.priority then some c else some b) none
+
 /-- `[c]` when the condition fails -/
 def chk (c : Chk) (ok : Bool) : List Chk := if ok then [] else [c]
 
@@ -91,10 +122,16 @@ def unionOk (A B : Kind) : Bool :=
 def atOk (K : Kind) (p : Path) : Bool :=
   K.SortedK && decide (C19.atClass K p = .none)
 
+/-- the kind-dependent hypotheses of `C19.insert_sound_partial` -/
+def insertClassOk (K : Kind) (p : Path) : Bool :=
+  !C19.anyOnInsertPath C19.optionalIdx K p && !C19.anyOnInsertPath C19.unionAltReq K p
+
 /-- the hypotheses of `C19.insert_sound_partial` -/
-def insertOk (K : Kind) (p : Path) : Bool :=
-  Spec.nonNegPath p && !C19.anyOnInsertPath C19.optionalIdx K p &&
-    !C19.anyOnInsertPath C19.unionAltReq K p
+def insertOk (K : Kind) (p : Path) : Bool := Spec.nonNegPath p && insertClassOk K p
+
+/-- the two checks of an insertion -/
+def insertChecks (K : Kind) (p : Path) : List Chk :=
+  chk .negIndex (Spec.nonNegPath p) ++ chk .kindInsert (insertClassOk K p)
 
 /-- the hypotheses of `C19.merge_sound_partial` -/
 def mergeOk (A B : Kind) : Bool :=
@@ -155,8 +192,8 @@ def tgtChecks (t : Tgt) (T : TState) : List Chk :=
   | .internal n p =>
     (match T.getVar n with
      | none => chk .scopeLeak p.isEmpty
-     | some d => chk .kindInsert (insertOk d.td.kind p))
-  | .external m p => chk .kindInsert (insertOk (T.extKind m) p)
+     | some d => insertChecks d.td.kind p)
+  | .external m p => insertChecks (T.extKind m) p
 
 /-- `Op::type_info` (same arguments as `opInfo`) -/
 def opChecks (o : Opcode) (l : TypeDef) (lv : Option Value) (T1 : TState) (r : TypeDef) (Tr : TState)
@@ -267,7 +304,7 @@ mutual
       (if hasC then checks c T ++ chk .ctorPoststate (!cT.1.fallible && cT.1.returns.isNever) else []) ++
       delExtChecks T2 m p compact
     | .delVar _ _ _ _, _ => [.delTyping]
-    | .delExpr _ _ _ _, _ => [.outOfModel]
+    | .delExpr _ _ _ _, _ => [.delTyping]
     | .existsExt _ _, _ => []
     | .existsVar _ _, _ => []
     | .existsExpr e _, T =>
@@ -310,8 +347,10 @@ def nanFree (e : Expr) (T : TState) : Bool := !(checks e T).contains .nan
 
 def nanFreeSeq (es : Exprs) (T : TState) : Bool := !(checksSeq es T {}).contains .nan
 
-/-- the first failed check of a program (driver: class of an oracle failure) -/
-def firstFailure (prog : Exprs) (T : TState) : Option Chk :=
-  (checksSeq prog T {}).find? (· != .nan)
+/-- the failed checks of each root expression of a program, in order (driver: the class of an oracle
+    failure observed at root `i` is the first failed check of roots `0..i`) -/
+def rootChecks : Exprs → TState → List (List Chk)
+  | .nil, _ => []
+  | .cons e es, T => checks e T :: rootChecks es (typeInfo e T).2
 
 end Lang
